@@ -7,6 +7,8 @@ import (
 	"encoding/binary"
 	"encoding/json"
 	"fmt"
+	"google.golang.org/grpc"
+	"google.golang.org/grpc/metadata"
 	"sync"
 	"testing"
 	"time"
@@ -21,7 +23,8 @@ type C01Call struct {
 	Client int         `json:"client"`
 	Req    kit.Payload `json:"req"`
 	Pad    kit.Payload `json:"pad"`
-	Gate   bool        `json:"gate"` // handler parks at a scheduler gate before replying
+	Gate   bool        `json:"gate"`           // handler parks at a scheduler gate before replying
+	Busy   bool        `json:"busy,omitempty"` // handler uses the metadata API on the way, including a call that is refused
 }
 
 type C01Case struct {
@@ -74,6 +77,7 @@ func genC01(t *rapid.T) C01Case {
 			Req:    kit.GenPayload(maxLen).Draw(t, "req"),
 			Pad:    kit.GenPayload(maxLen).Draw(t, "pad"),
 			Gate:   i < 24 && rapid.Bool().Draw(t, "gate"),
+			Busy:   rapid.IntRange(0, 3).Draw(t, "busy") == 0,
 		}
 		if dup && i > 0 && rapid.IntRange(0, 3).Draw(t, "dup") == 0 {
 			call.Req = c.Calls[0].Req // deliberately identical requests
@@ -127,6 +131,12 @@ func execC01(t *testing.T, c C01Case) (v Verdict) {
 				hmu.Lock()
 				seen[i] = append(seen[i], append([]byte{}, req...))
 				hmu.Unlock()
+				if c.Calls[i].Busy {
+					_ = grpc.SetHeader(ctx, metadata.Pairs("h", "1"))
+					_ = grpc.SendHeader(ctx, metadata.Pairs("h", "2"))
+					_ = grpc.SendHeader(ctx, metadata.Pairs("h", "3")) // refused: headers already sent
+					_ = grpc.SetTrailer(ctx, metadata.Pairs("t", "1"))
+				}
 				if c.Calls[i].Gate {
 					sched.Park(nil, fmt.Sprintf("h%03d", i))
 				}
